@@ -505,8 +505,14 @@ def main(argv):
             e_ = tr['events'][info[1] - 1]
             nth = len([x for x in tr['events'][:info[1]]
                        if x['ev'] == 'Attempt'])
-            key = 'C10:%s:reconfigure:%s:attempt%d:env=%s:files=%s' % (
-                info[0], backend, nth, e_.get('envstate'), e_.get('mkstate'))
+            # (the crash point is part of the identity of the finding: a
+            # stale success after another point is another violation)
+            pt = tr['point'].replace(os.path.basename(
+                'Makefile' if backend == 'make' else 'build.ninja'),
+                '<buildfile>')
+            key = 'C10:%s:%s:%s:attempt%d:env=%s:files=%s:at=%s' % (
+                info[0], tr['scenario'].split('/')[0], backend, nth,
+                e_.get('envstate'), e_.get('mkstate'), pt)
         ck.report(key, '%s in scenario %s: fault %s at point %d %s; event '
                   '%d: %s' % (info[0], tr['scenario'], tr['mode'], tr['k'],
                               tr['point'], info[1],
